@@ -2,6 +2,7 @@
 package c10
 
 import (
+	"os"
 	"context"
 	"encoding/json"
 	"errors"
@@ -70,6 +71,11 @@ func setup(c Case) ([]string, *pt.Failure) {
 				return names, pt.Failf("C10/harness/setup", "%v: %s", err, q)
 			}
 		}
+		for _, q := range tb.BigInserts(name) {
+			if _, err := env.Bare.Exec(q); err != nil {
+				return names, pt.Failf("C10/harness/setup", "bulk rows: %v", err)
+			}
+		}
 	}
 	return names, nil
 }
@@ -135,6 +141,14 @@ func prepare(c Case) {
 	atenv.UndoConfig(c.Config.Serializer, c.Config.Compress, c.Config.Validation, c.Config.OnlyUpdate)
 }
 
+// rollbackWait: thousands of compensating statements take their time.
+func rollbackWait(c Case) time.Duration {
+	if len(c.Tables) > 0 && c.Tables[0].BigRows > 0 {
+		return 120 * time.Second
+	}
+	return 5 * time.Second
+}
+
 func wroteSomething(names []string) bool {
 	for _, e := range env.Srv.Journal() {
 		if (e.Kind == "E" || e.Kind == "PE") && len(e.Writes) > 0 && !strings.Contains(strings.ToLower(e.Query), "undo_log") {
@@ -172,7 +186,7 @@ func runFaults(c Case) *pt.Failure {
 			return count == k
 		}}
 		env.Srv.AddFault(f)
-		st, resp := env.TC.BranchRollback(env.Sess, br, 5*time.Second)
+		st, resp := env.TC.BranchRollback(env.Sess, br, rollbackWait(c))
 		env.Srv.ClearFaults()
 		if f.Fired() == 0 {
 			// k is beyond the last statement of the rollback transaction: the fault-free run
@@ -207,7 +221,7 @@ func runFaults(c Case) *pt.Failure {
 			return pt.Failf("C10/transaction-left-open", "failed attempt left an engine transaction open on connections %v\n%s", ids, where)
 		}
 		// clean retry
-		st, resp = env.TC.BranchRollback(env.Sess, br, 5*time.Second)
+		st, resp = env.TC.BranchRollback(env.Sess, br, rollbackWait(c))
 		if resp == nil || st != branch.BranchStatusPhasetwoRollbacked {
 			env.DropTables(names)
 			return pt.Failf("C10/retry-refused", "clean retry after a failed attempt answered %v (response %v)\n%s\nretry:\n%s", st, resp != nil, where, atenv.Tail(env.Srv.Journal(), 8))
@@ -248,7 +262,7 @@ func runRepeat(c Case) *pt.Failure {
 	}
 	last.changed = wroteSomething(names)
 	for i := 0; i < c.Deliveries; i++ {
-		st, resp := env.TC.BranchRollback(env.Sess, br, 5*time.Second)
+		st, resp := env.TC.BranchRollback(env.Sess, br, rollbackWait(c))
 		if resp == nil || st != branch.BranchStatusPhasetwoRollbacked {
 			return pt.Failf("C10/repeat-refused", "delivery %d of %d answered %v (response %v)\n%s", i+1, c.Deliveries, st, resp != nil, atenv.Tail(env.Srv.Journal(), 10))
 		}
@@ -456,7 +470,32 @@ func TestPropFaultEveryPosition(t *testing.T) {
 	})
 }
 
+var bigDone bool
+
+// bigCase: repeated delivery of the rollback of a statement over a multiple of 1000 rows and over one row more,
+// once per process (size by shard number).
+func bigCase() Case {
+	sh := 0
+	if v := os.Getenv("VERIF_SHARD"); v != "" {
+		fmt.Sscanf(v, "%d", &sh)
+	}
+	n := []int{1000, 2000, 1001, 3000}[sh%4]
+	kind := []string{"update", "delete"}[(sh/2)%2]
+	tb := gen.TableSpec{KeyShape: "int", Cols: []gen.ColSpec{{Name: "id", Type: "INT", Base: "INT"}, {Name: "c0", Type: "INT", Base: "INT", Nullable: true}, {Name: "c1", Type: "VARCHAR(32)", Base: "VARCHAR", Nullable: true}}, PK: []string{"id"},
+		Rows: [][]gen.Lit{{{Kind: "int", I: 1}, {Kind: "int", I: 5}, {Kind: "str", S: "a"}}}, BigRows: n}
+	tables := []gen.TableSpec{tb}
+	return Case{Kind: "repeat", Deliveries: 2, Tables: tables, Branch: gen.Branch{Mode: "auto", Via: "db", Stmts: []gen.Stmt{gen.BigStmt(nil, tables, 0, kind, n)}},
+		Config: gen.Config{Serializer: "json", Compress: "None", Validation: true, OnlyUpdate: sh%2 == 0}}
+}
+
 func TestPropRepeatedDelivery(t *testing.T) {
+	if !bigDone {
+		bigDone = true
+		c := bigCase()
+		fl := runCase(c)
+		record("repeat", c)
+		ctx.Judge(t, "repeat", fl, c)
+	}
 	ctx.Check(t, func(rt *rapid.T) {
 		c := drawBase(rt)
 		c.Kind, c.Deliveries = "repeat", rapid.IntRange(1, 3).Draw(rt, "deliveries")
